@@ -25,7 +25,7 @@ class PollerModel:
             if b.defkind == 'Closure':
                 continue
             if b.back_edges() and common.reaches_call(fb, b, is_chrony_query) and \
-                    any(fn and 'recv' in mir.callee_name(fn).split('::')[-1] for _, _, fn in common.user_calls(b)):
+                    common.reaches_call(fb, b, lambda n: n.endswith(('Receiver::<T>::recv', 'Receiver::<T>::recv_timeout', 'Receiver::<T>::try_recv'))):
                 cands.append(b)
         if not cands:
             chk.missing(rule, 'poll loop (a daemon function with a loop that queries chronyd)')
